@@ -108,6 +108,22 @@ impl TrainSpec {
         }
     }
 
+    /// Adds (as the first row of an existing user lexicon) a row that mixes the cells of the two seed rows used
+    /// first in the corpus: its merged weight tends to exceed every seed word's, so that loading it moves the
+    /// largest absolute weight of the model. `explicit`: with explicit ids and cost instead of `0,0,0`.
+    pub fn add_weight_raising_user_row(&mut self, explicit: bool) {
+        let Some(u) = self.user.as_mut() else { return };
+        let gold: Vec<&SeedRow> = self.corpus.iter().flatten().filter_map(|(sf, feat)| self.lex.iter().find(|r| r.surface == *sf && r.feature() == *feat)).collect();
+        if let (Some(a), Some(b)) = (gold.first(), gold.iter().find(|r| r.cells != gold[0].cells)) {
+            let n = a.cells.len().max(b.cells.len());
+            let cells: Vec<String> = (0..n)
+                .map(|i| if i % 2 == 0 { a.cells.get(i).or(b.cells.get(i)) } else { b.cells.get(i).or(a.cells.get(i)) }.cloned().unwrap_or_else(|| "*".into()))
+                .collect();
+            let (left, right, cost) = if explicit { (1, 1, 7) } else { (0, 0, 0) };
+            u.insert(0, UserRow { surface: "zq".into(), left, right, cost, cells });
+        }
+    }
+
     pub fn lex_csv(&self) -> String {
         let mut s = String::new();
         for r in &self.lex {
